@@ -13,6 +13,7 @@ import (
 	"strings"
 
 	"github.com/graphql-go/graphql"
+	"github.com/graphql-go/graphql/language/ast"
 	"github.com/graphql-go/graphql/vstep"
 
 	"verif/h/bridge"
@@ -157,6 +158,21 @@ var families = []family{
 	}},
 }
 
+func init() {
+	families = append(families, family{"chain of n fragments, each spread twice behind variable-driven directives", func(n int) string {
+		var b strings.Builder
+		b.WriteString("query($g: Boolean!) { t { ...F1 @include(if: $g) ...F1 @skip(if: $g) } }")
+		for i := 1; i <= n; i++ {
+			next := "a"
+			if i < n {
+				next = fmt.Sprintf("...F%d @include(if: $g) ...F%d @skip(if: $g) self { ...F%d @include(if: $g) }", i+1, i+1, i+1)
+			}
+			fmt.Fprintf(&b, " fragment F%d on T1 { id %s }", i, next)
+		}
+		return b.String()
+	}})
+}
+
 type hooks struct{ g *gen.Schema }
 
 func (h hooks) OutcomeAt(string) model.Outcome { return model.OK }
@@ -176,7 +192,7 @@ func (h hooks) IsTypeOf(string, graphql.IsTypeOfParams) bool                    
 func (h hooks) Subscribe(*gen.FieldDef, graphql.ResolveParams) (interface{}, error) { return nil, nil }
 
 type meas struct {
-	validate, plan uint64
+	validate, plan, exec uint64
 	valid          bool
 	err            string
 }
@@ -215,13 +231,33 @@ func measure(b *bridge.Built, text string) meas {
 			}
 		}()
 		vstep.Reset(hardLimit)
-		if _, err := graphql.PlanQuery(&b.Schema, doc, ""); err != nil {
+		pl, err := graphql.PlanQuery(&b.Schema, doc, "")
+		if err != nil {
 			m.err = "PlanQuery: " + err.Error()
 		}
 		m.plan = vstep.N
+		if err == nil && strings.Contains(text, "$") {
+			// selections gated by variables are collected again per request: that work counts
+			// (the fragment chains resolve to a bounded number of objects, so the response
+			// itself is small)
+			vars := map[string]interface{}{}
+			for _, def := range doc.Definitions {
+				if op, ok := def.(*ast.OperationDefinition); ok {
+					for _, vd := range op.VariableDefinitions {
+						vars[vd.Variable.Name.Value] = true
+					}
+				}
+			}
+			vstep.Reset(hardLimit)
+			r := graphql.ExecutePlan(pl, graphql.ExecuteParams{Schema: b.Schema, Args: vars})
+			m.exec = vstep.N
+			if len(r.Errors) > 0 && !vstep.Blown {
+				m.err = "ExecutePlan: " + r.Errors[0].Message
+			}
+		}
 	}()
 	if vstep.Blown {
-		m.err = fmt.Sprintf("PlanQuery needs more than %d steps", hardLimit)
+		m.err = fmt.Sprintf("PlanQuery or ExecutePlan needs more than %d steps", hardLimit)
 	}
 	vstep.Reset(0)
 	return m
@@ -269,6 +305,7 @@ func run(c *core.Ctx) {
 		idx++
 		val := make([]uint64, maxN+1)
 		pl := make([]uint64, maxN+1)
+		ex := make([]uint64, maxN+1)
 		for n := 1; n <= maxN; n++ {
 			text := gen(n)
 			m := measure(b2, text)
@@ -288,7 +325,7 @@ func run(c *core.Ctx) {
 				}
 				return
 			}
-			val[n], pl[n] = m.validate, m.plan
+			val[n], pl[n], ex[n] = m.validate, m.plan, m.exec
 			// implementers must not matter for planning
 			if n == maxN || n == maxN/2 {
 				m64 := measure(b64, text)
@@ -306,6 +343,9 @@ func run(c *core.Ctx) {
 		}
 		if d := growth("PlanQuery", pl); d != "" {
 			c.Mismatch("", name+" plan growth", fmt.Sprintf("family %q: %s (series %v)", name, d, pl[1:]), map[string]interface{}{"family": name})
+		}
+		if d := growth("ExecutePlan (per-request planning included)", ex); d != "" {
+			c.Mismatch("", name+" execute growth", fmt.Sprintf("family %q: %s (series %v)", name, d, ex[1:]), map[string]interface{}{"family": name})
 		}
 	}
 	for _, f := range families {
